@@ -213,7 +213,7 @@ def fam_matrix(tier):
 
 def fam_watford_starts(tier):
     """Watford disc with one first-catalogue file at every start sector 4..1022 (and a second-catalogue file)"""
-    step = 1 if tier == 'thorough' else 3
+    step = 1
     starts = sorted(set(list(range(4, 1022, step)) + [0x102, 0x202, 0x302, 0x103, 0x1FE, 0x2FF]))
     for st in starts:
         yield {'kind': 'watford', 'tracks': 80, 'spt': 18, 'ext': 'sdd', 'total': 1023, 'files': [[st, 200]],
